@@ -79,6 +79,9 @@ type GDef struct {
 
 type GDoc struct {
 	Defs []*GDef `json:"defs"`
+	// Respelled: string literals written in another spelling in the arguments of a field that
+	// overlaps an identical one (must still merge; kinds.go)
+	Respelled int `json:"respelled,omitempty"`
 }
 
 // ---- schema helpers over a View ---------------------------------------------------------------
@@ -200,6 +203,8 @@ type docGen struct {
 	nAlias   int
 	// constOnly: never use variables (fragments of documents made by mutations)
 	constOnly bool
+	// respelled: string literals respelled in the arguments of overlapping identical fields
+	respelled int
 }
 
 func (g *docGen) intLit() string {
@@ -233,7 +238,7 @@ func (g *docGen) freeValue1(constant bool, depth int) *GValue {
 		}
 		return out
 	case c == 5:
-		return &GValue{Kind: "string", Text: `"j"`}
+		return &GValue{Kind: "string", Text: hx.Pick(g.r, []string{`"j"`, `"j"`, `"ANY"`, `"1"`, `"null"`})}
 	case c == 6:
 		return &GValue{Kind: "null"}
 	case c == 7:
@@ -274,8 +279,9 @@ func (g *docGen) scalarLit(name string, t *TypeDesc, constant bool) *GValue {
 	case "Boolean":
 		return &GValue{Kind: "bool", Text: hx.Pick(g.r, []string{"true", "false"})}
 	case "ID":
+		// numeric strings on purpose: `1` and `"1"` are different values for the merge rule
 		if g.r.Bool() {
-			return &GValue{Kind: "string", Text: `"id1"`}
+			return &GValue{Kind: "string", Text: hx.Pick(g.r, []string{`"id1"`, `"1"`, `"-5"`, `"9007199254740993"`, `"""1"""`})}
 		}
 		return &GValue{Kind: "int", Text: hx.Pick(g.r, []string{"1", "9007199254740993", "-5"})}
 	}
@@ -298,7 +304,8 @@ func (g *docGen) scalarLit(name string, t *TypeDesc, constant bool) *GValue {
 	case "float":
 		return &GValue{Kind: "float", Text: "2.5"}
 	case "string":
-		return &GValue{Kind: "string", Text: `"c"`}
+		// also the texts the other kinds are written with
+		return &GValue{Kind: "string", Text: hx.Pick(g.r, []string{`"c"`, `"c"`, `"3"`, `"2.5"`, `"ANY"`, `"true"`, `"null"`})}
 	case "bool":
 		return &GValue{Kind: "bool", Text: "true"}
 	case "list":
@@ -460,6 +467,10 @@ func (g *docGen) field(parent string, depth, owner int) *GSel {
 	key := parent + "." + f.Name
 	if past, ok := g.pastArgs[key]; ok && g.r.Chance(1, 2) {
 		s.Args = cloneArgs(past)
+		if g.r.Bool() {
+			// the same string values in other spellings: still identical arguments
+			g.respelled += respellArgs(g.r, s.Args)
+		}
 	} else {
 		s.Args = g.argsFor(f.Args)
 		g.pastArgs[key] = s.Args
@@ -568,6 +579,7 @@ func (g *docGen) sels(parent string, depth, owner int) []*GSel {
 				// an identical overlapping field (its sub-selection is generated again: it merges)
 				prev := out[len(out)-1]
 				dup := &GSel{Kind: "field", Name: prev.Name, Alias: prev.Alias, Parent: parent, HasArgs: prev.HasArgs, FType: prev.FType, Args: cloneArgs(prev.Args), Inner: prev.Inner}
+				g.respelled += respellArgs(g.r, dup.Args)
 				if prev.Sels != nil {
 					dup.Sels = g.sels(prev.Inner, depth+1, owner)
 				}
@@ -711,6 +723,7 @@ func genDoc(r *hx.Rand, v *View, size int) *GDoc {
 		hx.Shuffle(r, doc.Defs)
 	}
 	doc.declareVars(g.vars)
+	doc.Respelled = g.respelled
 	return doc
 }
 
@@ -791,6 +804,7 @@ func (g *docGen) shareNames(doc *GDoc) {
 // ---- printing ---------------------------------------------------------------------------------
 
 type printer struct {
+	canon  bool // string literals by value (signatures), not as written
 	b      strings.Builder
 	r      *hx.Rand // nil: compact single line
 	indent int
@@ -848,6 +862,12 @@ func printValueTo(p *printer, v *GValue) {
 			printValueTo(p, f.Value)
 		}
 		p.tok("}")
+	case "string":
+		if p.canon {
+			p.tok(canonString(v.Text))
+		} else {
+			p.tok(v.Text)
+		}
 	default:
 		p.tok(v.Text)
 	}
@@ -871,8 +891,10 @@ func printArgsTo(p *printer, args []GArg) {
 	p.tok(")")
 }
 
+// printArgs is the signature of an argument list: two lists with the same signature are
+// identical arguments (string literals by value, whatever their spelling).
 func printArgs(args []GArg) string {
-	p := &printer{}
+	p := &printer{canon: true}
 	printArgsTo(p, args)
 	return p.b.String()
 }
